@@ -6,9 +6,11 @@
 cd /verif || exit 2
 run() {
   d=$1; n=$(basename $d .diff)
+  out=".load load:"
   if git -C /repo apply --check /verif/$d 2>/dev/null; then
     out=$(/verif/refacw.sh /verif/$d all 2>&1 | grep -E ': C[0-9]+\.[A-Za-z0-9]+ |floor|patch does not')
-  else
+  fi
+  if echo "$out" | grep -q '\.load load:'; then
     out=$(/verif/refacb.sh /verif/$d all 2>&1 | grep -E ': C[0-9]+\.[A-Za-z0-9]+ |floor|applies to none')
   fi
   if [ -z "$out" ]; then echo "$n: quiet"; else echo "$n: ALARMS"; echo "$out" | cut -c1-260 | sed 's/^/    /'; fi
